@@ -79,7 +79,7 @@ template <class F> int run(int argc, char **argv, F &&on_line) {
     if (argc < 3) { fprintf(stderr, "usage: %s script trace [skip]\n", argv[0]); return 3; }
     auto sc = read_script(argv[1]); open(argv[2]);
     long skip = argc > 3 ? atol(argv[3]) : 0; long seen = 0;
-    unsigned g_op_timeout = getenv("VERIF_OP_TIMEOUT") ? atoi(getenv("VERIF_OP_TIMEOUT")) : 4;
+    unsigned g_op_timeout = getenv("VERIF_OP_TIMEOUT") ? atoi(getenv("VERIF_OP_TIMEOUT")) : 2;
     for (auto &l : sc) {
         if (l.t[0] == "R") ++seen;
         if (seen <= skip) continue;
